@@ -68,6 +68,8 @@ func oracleHints(c *Case) CaseResult {
 	for name, opts := range map[string][]logicalplan.Optimizer{"none": logicalplan.NoOptimizers, "default": logicalplan.DefaultOptimizers, "all": logicalplan.AllOptimizers} {
 		cfg2 := cfg
 		cfg2.Optimizers = opts
+		opts := opts
+		c.baseMaker = func(x EngineCfg) queryMaker { x.Optimizers = opts; return newImpl(x) }
 		full, _ := runQuery(newImpl(cfg2), NewStore(c.Data), cfg2, c.Query, c.Window)
 		clipStore := NewStore(c.Data)
 		clipStore.ClipToHints = true
